@@ -8,3 +8,10 @@ open GoguVerif.Theorems.C02
 #print axioms lin_table_ok
 #print axioms queue_linearizable
 #print axioms stack_linearizable
+#print axioms GoguVerif.Theorems.C02Fine.inv_step
+#print axioms GoguVerif.Theorems.C02Fine.fine_refines_atomic
+#print axioms fine_linearizable
+#print axioms fine_history_is_atomic
+#print axioms queueMeth_atomic
+#print axioms queueMeth_readOnly
+#print axioms queue_fine_linearizable
